@@ -31,6 +31,69 @@ var replacements = map[string]string{
 	akType + "GetModuleAccount":               "AKGetModuleAccount",
 	akType + "SetModuleAccount":               "AKSetModuleAccount",
 	akType + "AddressCodec":                   "AKAddressCodec",
+
+	// protobuf Any packing / type registry
+	"(github.com/cosmos/cosmos-sdk/x/authz.MsgExec).GetMessages":    "ExecGetMessages",
+	"(github.com/cosmos/cosmos-sdk/x/authz.Grant).GetAuthorization": "GrantGetAuthorization",
+	"github.com/cosmos/cosmos-sdk/codec/types.MsgTypeURL":           "MsgTypeURL",
+
+	// Ethereum transaction model (RLP decoding, hash, signature recovery)
+	"(github.com/EscanBE/evermint/v12/x/evm/types.MsgEthereumTx).AsTransaction": "MsgAsTransaction",
+	"github.com/ethereum/go-ethereum/core/types.Sender":                          "TxSender",
+	"(*github.com/ethereum/go-ethereum/core/types.Transaction).Hash":             "TxHash",
+
+	// ABI codec and typed-metadata JSON of the custom precompiles (reflection)
+	"(github.com/EscanBE/evermint/v12/x/cpc/abi.CustomPrecompiledContractInfo).UnpackMethodInput": "AbiUnpackMethodInput",
+	"(github.com/EscanBE/evermint/v12/x/cpc/abi.CustomPrecompiledContractInfo).PackMethodOutput":  "AbiPackMethodOutput",
+	"github.com/EscanBE/evermint/v12/x/cpc/utils.AbiEncodeString":                                 "AbiEncodeString",
+	"github.com/EscanBE/evermint/v12/x/cpc/utils.AbiEncodeUint8":                                  "AbiEncodeUint8",
+	"github.com/EscanBE/evermint/v12/x/cpc/utils.AbiEncodeUint256":                                "AbiEncodeUint256",
+	"github.com/EscanBE/evermint/v12/x/cpc/utils.AbiEncodeBool":                                   "AbiEncodeBool",
+	"github.com/EscanBE/evermint/v12/x/cpc/utils.AbiEncodeArrayOfAddresses":                       "AbiEncodeArrayOfAddresses",
+	"github.com/EscanBE/evermint/v12/x/cpc/utils.MustMarshalJson":                                 "MustMarshalJson",
+	"encoding/json.Unmarshal":                                                                      "JsonUnmarshal",
+
+	// RLP / bloom of receipts (reflection-driven RLP and the pooled assembly Keccak are outside the engine)
+	"(*github.com/ethereum/go-ethereum/core/types.Receipt).MarshalBinary":   "ReceiptMarshalBinary",
+	"(*github.com/ethereum/go-ethereum/core/types.Receipt).UnmarshalBinary": "ReceiptUnmarshalBinary",
+	"github.com/ethereum/go-ethereum/core/types.CreateBloom":                "CreateBloom",
+	"github.com/ethereum/go-ethereum/core/types.LogsBloom":                  "LogsBloom",
+}
+
+// switchable replacements are only in force while the harness has switched them on with verif.Switch(key, true)
+const evmT = "(*github.com/ethereum/go-ethereum/core/vm.EVM)."
+
+var switchable = map[string][2]string{
+	evmT + "Call":         {"evmstub", "EVMCall"},
+	evmT + "Create":       {"evmstub", "EVMCreate"},
+	evmT + "StaticCall":   {"evmstub", "EVMStaticCall"},
+	evmT + "DelegateCall": {"evmstub", "EVMDelegateCall"},
+	evmT + "CallCode":     {"evmstub", "EVMCallCode"},
+	evmT + "Create2":      {"evmstub", "EVMCreate2"},
+}
+
+func (i *interpreter) lookupSwitchable(name string) *ssa.Function {
+	sw, ok := switchable[name]
+	if !ok {
+		return nil
+	}
+	if on, _ := i.extState["switch:"+sw[0]].(bool); !on {
+		return nil
+	}
+	key := "sw:" + name
+	if f, ok := replCache.Load(key); ok {
+		return f.(*ssa.Function)
+	}
+	pkg := i.prog.ImportedPackage(modelPkg)
+	if pkg == nil {
+		panic(engineAbort{"replacement for " + name + " needs the model package, which is not loaded"})
+	}
+	fn := pkg.Func(sw[1])
+	if fn == nil {
+		panic(engineAbort{"model function " + sw[1] + " not found"})
+	}
+	replCache.Store(key, fn)
+	return fn
 }
 
 var replCache sync.Map
